@@ -21,6 +21,16 @@ impl<'a> RtcpPacketParser<'a> for App<'a> {
     fn parse(data: &'a [u8]) -> Result<Self, RtcpParseError> {
         parser::check_packet::<Self>(data)?;
 
+        if let Some(padding) = parser::parse_padding(data) {
+            let min_len = Self::MIN_PACKET_LEN + padding as usize;
+            if data.len() < min_len {
+                return Err(RtcpParseError::Truncated {
+                    expected: min_len,
+                    actual: data.len(),
+                });
+            }
+        }
+
         Ok(Self { data })
     }
 
